@@ -92,7 +92,9 @@ static void drop_slot(int k) {
     if (z1 == k || z2 == k) z1 = z2 = -1;
     A[k] = NULL;
 }
-static void o_out(enum cc_stat st, void *out) { o_stat(st); if (st == CC_OK) o(" out=%llu", VAL(out)); }
+static int noout;   /* noout=1 on an operation with an optional out-pointer: NULL is passed, no out= is printed */
+static void o_out(enum cc_stat st, void *out) { o_stat(st); if (st == CC_OK && !noout) o(" out=%llu", VAL(out)); }
+#define OUTP(p) (noout ? NULL : (p))
 
 /* cc_array_new_conf with the harness allocators and the line's cap= / exp= */
 static enum cc_stat make(Cmd *c, CC_Array **out) {
@@ -104,6 +106,9 @@ static enum cc_stat make(Cmd *c, CC_Array **out) {
     return cc_array_new_conf(&conf, out);
 }
 static void do_op(Cmd *c) {
+    noout = kv_u64(c, "noout", 0) == 1 &&
+            (is_op(c, "replace_at") || is_op(c, "remove") || is_op(c, "remove_at") || is_op(c, "remove_last") ||
+             is_op(c, "it_remove") || is_op(c, "it_replace") || is_op(c, "zit_remove") || is_op(c, "zit_replace"));
     int k = (int)kv_u64(c, "o", 0), to = (int)kv_u64(c, "to", 1);
     if (k < 0 || k >= NSLOT) k = 0;
     if (to < 0 || to >= NSLOT) to = 1;
@@ -150,14 +155,14 @@ static void do_op(Cmd *c) {
             o_stat(st); if (st == CC_OK) o(" out=%llu out2=%llu", VAL(o1), VAL(o2));
         } else if (is_op(c, "zit_remove")) {
             void *o1 = PTR(777777), *o2 = PTR(777777);
-            enum cc_stat st = cc_array_zip_iter_remove(&zit, &o1, &o2);
-            o_stat(st); if (st == CC_OK) o(" out=%llu out2=%llu", VAL(o1), VAL(o2));
+            enum cc_stat st = cc_array_zip_iter_remove(&zit, OUTP(&o1), OUTP(&o2));
+            o_stat(st); if (st == CC_OK && !noout) o(" out=%llu out2=%llu", VAL(o1), VAL(o2));
         } else if (is_op(c, "zit_add")) {
             o_stat(cc_array_zip_iter_add(&zit, PTR(pos_u64(c, 0)), PTR(pos_u64(c, 1))));
         } else if (is_op(c, "zit_replace")) {
             void *o1 = PTR(777777), *o2 = PTR(777777);
-            enum cc_stat st = cc_array_zip_iter_replace(&zit, PTR(pos_u64(c, 0)), PTR(pos_u64(c, 1)), &o1, &o2);
-            o_stat(st); if (st == CC_OK) o(" out=%llu out2=%llu", VAL(o1), VAL(o2));
+            enum cc_stat st = cc_array_zip_iter_replace(&zit, PTR(pos_u64(c, 0)), PTR(pos_u64(c, 1)), OUTP(&o1), OUTP(&o2));
+            o_stat(st); if (st == CC_OK && !noout) o(" out=%llu out2=%llu", VAL(o1), VAL(o2));
         } else if (is_op(c, "zit_index")) {
             o("st=- out=%zu", cc_array_zip_iter_index(&zit));
         } else o("st=- badop");
@@ -166,9 +171,9 @@ static void do_op(Cmd *c) {
     } else if (!strncmp(c->op, "it_", 3)) {
         if (it_slot < 0) o("st=- noiter");
         else if (is_op(c, "it_next")) { enum cc_stat st = cc_array_iter_next(&it, &out); o_out(st, out); }
-        else if (is_op(c, "it_remove")) { enum cc_stat st = cc_array_iter_remove(&it, &out); o_out(st, out); }
+        else if (is_op(c, "it_remove")) { enum cc_stat st = cc_array_iter_remove(&it, OUTP(&out)); o_out(st, out); }
         else if (is_op(c, "it_add")) o_stat(cc_array_iter_add(&it, PTR(pos_u64(c, 0))));
-        else if (is_op(c, "it_replace")) { enum cc_stat st = cc_array_iter_replace(&it, PTR(pos_u64(c, 0)), &out); o_out(st, out); }
+        else if (is_op(c, "it_replace")) { enum cc_stat st = cc_array_iter_replace(&it, PTR(pos_u64(c, 0)), OUTP(&out)); o_out(st, out); }
         else if (is_op(c, "it_index")) o("st=- out=%zu", cc_array_iter_index(&it));
         else o("st=- badop");
     } else if (!a) { o("st=- noobj");
@@ -176,11 +181,11 @@ static void do_op(Cmd *c) {
         cc_array_destroy(a); drop_slot(k); o("st=-");
     } else if (is_op(c, "add")) { o_stat(cc_array_add(a, PTR(pos_u64(c, 0))));
     } else if (is_op(c, "add_at")) { o_stat(cc_array_add_at(a, PTR(pos_u64(c, 0)), pos_u64(c, 1)));
-    } else if (is_op(c, "replace_at")) { enum cc_stat st = cc_array_replace_at(a, PTR(pos_u64(c, 0)), pos_u64(c, 1), &out); o_out(st, out);
+    } else if (is_op(c, "replace_at")) { enum cc_stat st = cc_array_replace_at(a, PTR(pos_u64(c, 0)), pos_u64(c, 1), OUTP(&out)); o_out(st, out);
     } else if (is_op(c, "swap_at")) { o_stat(cc_array_swap_at(a, pos_u64(c, 0), pos_u64(c, 1)));
-    } else if (is_op(c, "remove")) { enum cc_stat st = cc_array_remove(a, PTR(pos_u64(c, 0)), &out); o_out(st, out);
-    } else if (is_op(c, "remove_at")) { enum cc_stat st = cc_array_remove_at(a, pos_u64(c, 0), &out); o_out(st, out);
-    } else if (is_op(c, "remove_last")) { enum cc_stat st = cc_array_remove_last(a, &out); o_out(st, out);
+    } else if (is_op(c, "remove")) { enum cc_stat st = cc_array_remove(a, PTR(pos_u64(c, 0)), OUTP(&out)); o_out(st, out);
+    } else if (is_op(c, "remove_at")) { enum cc_stat st = cc_array_remove_at(a, pos_u64(c, 0), OUTP(&out)); o_out(st, out);
+    } else if (is_op(c, "remove_last")) { enum cc_stat st = cc_array_remove_last(a, OUTP(&out)); o_out(st, out);
     } else if (is_op(c, "remove_all")) { cc_array_remove_all(a); o("st=-");
     } else if (is_op(c, "remove_all_free")) {
         /* the function releases the elements with the C library's free(): give it real libc blocks
